@@ -291,6 +291,22 @@ pub fn window_oracles(log: &[Event], built: &Built, lay: &Layout, mode: &str) ->
                         i.push(t);
                         finished.contains(&i)
                     };
+                    // inner dispatch k of a batch begins only when inner dispatch k-1 is over: every
+                    // placed system of the batch, thread-local ones included, has finished it
+                    if prefix.len() >= 2 && prefix[prefix.len() - 1] > 0 {
+                        let mut prev = prefix.to_vec();
+                        let last = prev.len() - 1;
+                        prev[last] -= 1;
+                        for t in &sibs {
+                            let i = &built.infos[t];
+                            let mut inst = prev.clone();
+                            inst.push(*t);
+                            if i.placed && !finished.contains(&inst) {
+                                v.push(("C07".into(), format!("event {}: {} (inner dispatch {}) begins to fetch although {} has not finished the inner dispatch before it", k, e.inst_str(), prefix[last], t)));
+                                break;
+                            }
+                        }
+                    }
                     // dependencies
                     let mut names: BTreeMap<String, usize> = BTreeMap::new();
                     for t in &sibs {
